@@ -25,8 +25,8 @@ func init() {
 			"schedules are explored by delay injection and one-window-at-a-time direction, not enumerated at the granularity of individual atomics",
 		},
 		Families: []core.Family{
-			{Name: "random", N: core.TierN(300, 4000), Batch: 25, Run: c07Random},
-			{Name: "directed-windows", N: core.TierN(160, 1600), Batch: 20, Run: c07Directed},
+			{Name: "random", N: core.TierN(300, 16000), Batch: 25, Run: c07Random},
+			{Name: "directed-windows", N: core.TierN(160, 6400), Batch: 20, Run: c07Directed},
 		},
 	})
 }
